@@ -77,6 +77,8 @@ def writer_circuits():
     yield "const-zero-feeds-logic", build({"a": ("input", []), "z": ("0", []), "g": ("or", ["a", "z"]), "h": ("xor", ["g", "z"])}, outputs=["h", "g"])
     yield "const-one-feeds-logic", build({"a": ("input", []), "b": ("input", []), "w": ("1", []), "g": ("and", ["a", "w"]), "h": ("nand", ["g", "w", "b"])}, outputs=["h"])
     yield "constants-are-outputs", build({"a": ("input", []), "z": ("0", []), "w": ("1", []), "g": ("not", ["a"])}, outputs=["z", "w", "g"])
+    yield "nets-named-like-the-constant-helpers", build({"a": ("input", []), "b": ("input", []), "z": ("0", []), "w": ("1", []), "a_inv": ("and", ["a", "b"]), "b_inv": ("or", ["a", "b"]), "z_not_a": ("xor", ["a", "b"]),
+                                                         "z_not_b": ("nand", ["a", "b"]), "g": ("xor", ["a_inv", "b_inv", "z", "w", "z_not_a", "z_not_b"])}, outputs=["g", "a_inv"])
     yield "both-constants-one-input", build({"i": ("input", []), "z": ("0", []), "w": ("1", []), "g": ("xnor", ["i", "z", "w"])}, outputs=["g"])
 
 
